@@ -92,7 +92,7 @@ def main():
             rc, out = sh("%s./check %s %s" % (env_extra, p, tier), cwd=VERIF, timeout=7200)
             viol = [l for l in out.splitlines() if l.startswith("VIOLATION")]
             clauses = [l.strip() for l in out.splitlines() if "violations by clause" in l]
-            drift = [l for l in out.splitlines() if l.startswith(("[pipe] DRIFT", "[geom] DRIFT", "[mon] DRIFT"))]
+            drift = [l for l in out.splitlines() if l.startswith(("[pipe] DRIFT", "[geom] DRIFT", "[mon] DRIFT", "[api] DRIFT"))]
             results[p] = {"exit": rc, "violation_lines": len(viol), "wall_s": round(time.time() - t0, 1), "by_clause": clauses[:1], "drift": drift[:1]}
             print("check %s %s -> exit %d, %d VIOLATION lines %s %s (%.0fs)" % (p, tier, rc, len(viol), clauses[:1], drift[:1], time.time() - t0))
             if rc == 2:
